@@ -4,7 +4,10 @@
      make <head> <array> <size>              -> <head_log> <head_size> <array_log> <array_size> | UB
      path.<family> <head> <array> <hash>     -> m=<hl>,<al> p=<slot>:<eos>,... x=<idx>,...  | rej m=.. | UB
      set.<family> <head> <array> <hash>...   -> m=<hl>,<al> r=<0/1>,... | <i>@<slot>.<slot>... | ...   | rej .. | UB
-   family: ns_u16 ns_i16 ns_u32 ns_i32 ns_u64 ns_i64 sb1 sb2 sb4 sb8 bs1 bs2 bs4 bs8 *)
+   family: ns_u16 ns_i16 ns_u32 ns_i32 ns_u64 ns_i64 sb1 sb2 sb4 sb8 bs1 bs2 bs4 bs8
+   Lines whose name starts with "feldman_" name a GENERATED function <unit>.<coq name> (units feldman_make,
+   feldman_ctor: metrics::make and the splitter constructors); they are evaluated by C28_gen_dispatch, which
+   checks/C28.py generates with tools/cxx2v/gen_ocaml_dispatch.py (argument / result order documented there). *)
 open Cxx2v_rt
 open FeldmanPath
 
@@ -77,4 +80,7 @@ let eval (name : string) (args : arg list) : string =
      | _ -> raise Not_found)
   | _ -> raise Not_found
 
-let () = Cxx2v_rt.run eval
+let is_generated (name : string) : bool =
+  String.length name > 8 && String.sub name 0 8 = "feldman_"
+
+let () = Cxx2v_rt.run (fun name args -> if is_generated name then C28_gen_dispatch.eval name args else eval name args)
